@@ -119,7 +119,10 @@ def _poly_of(x):
 def scn_geojson(c, ci):
     it, ds, conv, conv_name = _setup(c, ci)
     f = fn(it, MOD, 'to_geojson')
+    from pyvc.api import check_unmodified, snapshot
+    snap = snapshot(ds)
     fc = expect_ok(c, 'to_geojson returns', lambda: call(it, f, ds))
+    check_unmodified(c, ds, snap, 'the exported dataset')
     c.check('a FeatureCollection', isinstance(fc, GeoObj) and fc.kind == 'FeatureCollection' and len(fc.args) == 1)
     if not isinstance(fc, GeoObj):
         raise PathEnd()
@@ -172,7 +175,10 @@ def scn_write_geojson(c):
 
 def _shp_check(c, it, ds, conv, conv_name, target_args, kw):
     polys = abstract_polygons(conv)
+    from pyvc.api import check_unmodified, snapshot
+    snap = snapshot(ds)
     expect_ok(c, 'write_shapefile returns', lambda: call(it, fn(it, MOD, 'write_shapefile'), ds, *target_args, **kw))
+    check_unmodified(c, ds, snap, 'the exported dataset')
     writers = [e for e in c.events if e[0] == 'shp.Writer']
     c.check('one shapefile.Writer', len(writers) == 1)
     if len(writers) != 1:
